@@ -334,8 +334,11 @@ func c14ValidArgs(hs map[string]uint64, rng *rand.Rand) map[[2]uint32][][]byte {
 		add(progNFS, 13, argDirop(h, "k"), argDirop(h, "d"), argDirop(h, "nope"))
 		add(progNFS, 14, argRename(h, "k", h, "k2"), argRename(h, "nope", hs["/"], "z"), argRename(h, "k", hs["stale"], "z"))
 		add(progNFS, 15, cat(fh(h), fh(hs["/"]), xdrOpaque([]byte("ln"))))
-		add(progNFS, 16, argReaddir(h, 0, zeroVerf, 4096), argReaddir(h, 1, zeroVerf, 50), argReaddir(h, 0, zeroVerf, 110), argReaddir(h, 99, zeroVerf, 4096))
-		add(progNFS, 17, argReaddirplus(h, 0, zeroVerf, 4096, 8192), argReaddirplus(h, 0, zeroVerf, 10, 240), argReaddirplus(h, 1, zeroVerf, 4096, 8192))
+		add(progNFS, 16, argReaddir(h, 0, zeroVerf, 4096), argReaddir(h, 1, zeroVerf, 50), argReaddir(h, 0, zeroVerf, 110), argReaddir(h, 99, zeroVerf, 4096),
+			// counts that hold some entries but not all: the page is cut, and must still be a well-formed entry list
+			argReaddir(h, 0, zeroVerf, 136), argReaddir(h, 0, zeroVerf, 170), argReaddir(h, 1, zeroVerf, 140), argReaddir(h, 0, zeroVerf, 200), argReaddir(h, 2, zeroVerf, 164))
+		add(progNFS, 17, argReaddirplus(h, 0, zeroVerf, 4096, 8192), argReaddirplus(h, 0, zeroVerf, 10, 240), argReaddirplus(h, 1, zeroVerf, 4096, 8192),
+			argReaddirplus(h, 0, zeroVerf, 4096, 260), argReaddirplus(h, 0, zeroVerf, 64, 420), argReaddirplus(h, 1, zeroVerf, 4096, 300), argReaddirplus(h, 0, zeroVerf, 8192, 600))
 		add(progNFS, 18, fh(h))
 		add(progNFS, 19, fh(h))
 		add(progNFS, 20, fh(h))
